@@ -198,7 +198,20 @@ def run_history(kind: str, cap: int, auto_reload: bool, ns_key: bool, ops: list[
                 out = []
                 for env in (env_c, env_u):
                     try:
-                        if via:
+                        if via == "ctx":
+                            # a direct load that passes a render context AND globals of its own
+                            # (what a custom tag does): served bound to these globals, while the
+                            # cached object other callers hold is left alone
+                            from liquid2 import RenderContext
+                            ck_ = (id(env), "ctx")
+                            if ck_ not in wrappers:
+                                wrappers[ck_] = RenderContext(env.from_string(""))
+                            if is_async:
+                                t = loop.run_until_complete(env.get_template_async(name, globals=gl, context=wrappers[ck_], **kw))
+                            else:
+                                t = env.get_template(name, globals=gl, context=wrappers[ck_], **kw)
+                            out.append(("L",) + _parse(t.render()))
+                        elif via:
                             # loaded from inside a render: the loader is called with the render context
                             tag = via if isinstance(via, str) else "include"
                             # the wrapping template is parsed once per (environment, tag, name) and
@@ -229,7 +242,7 @@ def run_history(kind: str, cap: int, auto_reload: bool, ns_key: bool, ops: list[
                 if faulted:
                     # what the non-caching loader gives once the fault has passed
                     try:
-                        t = env_u.get_template(name, globals=None if via else gl, **kw)
+                        t = env_u.get_template(name, globals=None if (via and via != "ctx") else gl, **kw)
                         obs_u = obs_u + (("L",) + _parse(t.render()),)
                     except TemplateNotFoundError:
                         obs_u = obs_u + (("N",),)
@@ -342,7 +355,7 @@ def oracle(kind: str, cap: int, ar: bool, nsk: bool, ops: list[tuple], res: dict
         c, u = s["c"], s["u"]
         if c[0] == "X":
             return f"step {i}: caching loader raised {c[1]}"
-        want_g = 0 if (len(op) > 5 and op[5]) else op[3]
+        want_g = 0 if (len(op) > 5 and op[5] and op[5] != "ctx") else op[3]
         if c[0] == "L" and c[2] != want_g:
             return f"step {i}: rendered with globals G{c[2]}, caller passed G{want_g}"
         if len(u) == 2:
@@ -372,6 +385,8 @@ def alphabet(kind: str, nsk: bool) -> list[tuple]:
     loads = [("L", n, ns, g, a) for n in NAMES for ns in nss for g in (0, 1) for a in (False, True)]
     # the same template reached through include / render inside another template
     loads += [("L", n, ns, 0, a, tag) for n in NAMES for ns in nss for a in (False, True) for tag in ("include", "render")]
+    # a direct get_template / get_template_async that passes a render context and its own globals
+    loads += [("L", n, ns, g, a, "ctx") for n in NAMES for ns in nss for g in (0, 1) for a in (False, True)]
     keys = [f"{ns}/{n}" for ns in NSS for n in NAMES] if ns_aware else list(NAMES)
     if kind == "fs2":
         keys = [f"{sp}/{n}" for sp in SEARCH2 for n in NAMES]
@@ -427,6 +442,12 @@ CORPUS = [
     # a partial reached through include is revalidated against the file like any other load
     ("fs", 2, True, False, [("M", "t", 1), ("L", "t", None, 0, False, "include"), ("M", "t", 2), ("L", "t", None, 0, False, "include"),
                             ("M", "t", 3), ("L", "t", None, 0, True, "render")]),
+    # get_template with a context argument and globals: the caller gets its own globals, the
+    # template someone else holds keeps its own
+    ("dict", 2, True, False, [("M", "t", 1), ("L", "t", None, 1, False), ("L", "t", None, 2, False, "ctx"), ("L", "t", None, 0, True, "ctx"),
+                              ("L", "t", None, 3, False, "ctx"), ("L", "t", None, 0, False, "include"), ("L", "t", None, 4, True)]),
+    ("fs", 2, True, False, [("M", "t", 1), ("L", "t", None, 2, True, "ctx"), ("L", "t", None, 1, False, "ctx"), ("M", "t", 2),
+                            ("L", "t", None, 0, False, "ctx"), ("L", "t", None, 5, True, "ctx")]),
     # a load from inside a render must not re-bind the globals of the cached object (fixed in /repo 65f8ab3)
     ("dict", 2, True, False, [("M", "t", 1), ("L", "t", None, 1, False), ("L", "t", None, 0, False, "include"), ("L", "t", None, 0, True, "render")]),
 ]
